@@ -24,12 +24,14 @@ from . import common as C
 TRACE = True
 TRUSTED = [
     "virtual-time simulator (harness/vsim.py): fake transports, integer-millisecond clock, one IPv4 socket per instance",
-    "DNSIncoming's decoding (C02 owns it): the listener model takes valid/has_qu_question from the real parser; is_query/truncated are recomputed from the header by generated leaves",
+    "DNSIncoming's decoding (C02 owns it): the listener model takes `valid` from the real parser; has_qu_question is derived from the question classes the harness reads off the wire with a walker of its own (the parser's flag only for packets the parser rejects); is_query/truncated are recomputed from the header by generated leaves",
     "the answer sets `_answer_question` returns (C03 owns them) are inputs of the routing model",
 ]
 ASSUMPTIONS = [
     "'immediate succession' = the second copy is delivered at the same clock reading as the first, before any other block of the instance runs",
-    "observable behaviour = datagrams sent (time, destination, decoded content, order-insensitive inside a section) + ServiceListener / browser-handler callbacks + lookup results; RecordUpdateListener invocations are not observations",
+    "observable behaviour = datagrams sent (time, destination address and port, decoded content with the three record sections merged and sorted) + ServiceListener / browser-handler callbacks per listener + lookup results + loop exception handler; the number of RecordUpdateListener invocations is compared too (an internal listener interface, but doubled record-manager rounds show there first)",
+    "every delivery is a fresh bytes object (equal, never identical), as every recvfrom of a socket is",
+    "recorded findings D11 / D11b: deliveries in their input class are spared in the main comparison; in the run that spares nothing (made for every case) their second copy gets the local oracle (no callback, <= 1 unicast datagram and only to the querier's address and port, multicast only of the predicted records in no more datagrams than the first copy sent, cache and queues unchanged) and the run's difference from the reference is filed under the finding only if its FIRST departure has the shape the finding predicts (classify_full_difference); anything else is a fresh violation",
     "identical random seeds = every random draw is a function of (seed, virtual time, index of the draw within that instant, interval)",
 ]
 
@@ -100,7 +102,10 @@ def gen_history(rng, qu_ok, n_items=None):
             data[0], data[1] = k & 0xFF, rng.randrange(256)
             items.append({"gap": gap, "data": bytes(data), "src": src, "kind": "query-qu" if any_qu else ("query-tc" if tc else "query")})
             continue
-        out = DNSOutgoing(const._FLAGS_QR_RESPONSE | const._FLAGS_AA)
+        # (a response with the TC bit set is legal input -- RFC 6762 18.5: the bit is ignored on reception -- and must be
+        # de-duplicated like any other: only *queries* have the per-source scan of deferred packets behind the guard)
+        tc_resp = rng.random() < 0.12
+        out = DNSOutgoing(const._FLAGS_QR_RESPONSE | const._FLAGS_AA | (const._FLAGS_TC if tc_resp else 0))
         qsec = qu_ok and rng.random() < 0.08
         if qsec:  # a response that carries a question section with the QU bit (legacy-style reply)
             q = DNSQuestion(TB, const._TYPE_PTR, const._CLASS_IN)
@@ -120,7 +125,7 @@ def gen_history(rng, qu_ok, n_items=None):
             ])
             out.add_answer_at_time(rec, 0)
         items.append({"gap": gap, "data": out.packets()[0], "src": (rng.choice([QUERIER, "10.9.9.7"]), 5353),
-                      "kind": "response-qsec" if qsec else "response"})
+                      "kind": "response-qsec" if qsec else ("response-tc" if tc_resp else "response")})
     return items
 
 
@@ -279,14 +284,31 @@ def shadow_apply(shadow, data, now):
             removes.append(k)
     for k, v in list(shadow.items()):
         if k[:3] in uniq and k not in here and now - v[0] > 1000:
-            shadow[k] = (now, 1)
+            expired_for = now - (v[0] + 1000 * v[1])
+            if expired_for < 0:
+                shadow[k] = (now, 1)
+            elif expired_for <= CLEANUP_MS:
+                # the record has run out but the periodic cache cleanup (every 10 s) may not have purged it yet: whether the
+                # implementation's cache still holds it -- and so revives it for one more second -- depends on the phase of that
+                # timer, which this history does not track: recency of this record is *unknown* until it is heard again
+                shadow[k] = (now, 1, "unknown")
+            else:
+                del shadow[k]     # purged long ago: nothing to flush
     for k in removes:
         shadow.pop(k, None)
 
 
+CLEANUP_MS = 10000 + 1000
+
+
 def shadow_recent(shadow, rec, now):
+    """True / False, or None when the arrival history cannot tell (see `shadow_apply`)"""
     v = shadow.get(ident(rec))
-    return v is not None and v[0] + 250 * v[1] > now
+    if v is None:
+        return False
+    if len(v) > 2 and v[0] + 1000 * v[1] > now - CLEANUP_MS:
+        return None
+    return v[0] + 250 * v[1] > now
 
 
 def downstream_digest(zc):
@@ -323,9 +345,12 @@ def qu_signature(zc, data, port, now, shadow):
                     # record stored under another identity) must not move the delivery into the recorded finding's class
                     e = zc.cache.async_get_unique(rec)
                     impl_recent = e is not None and e.is_recent(now)
-                    if impl_recent != shadow_recent(shadow, rec, now):
+                    mine = shadow_recent(shadow, rec, now)
+                    if mine is None:
+                        mine = impl_recent      # (either answer is right there: take the implementation's)
+                    if impl_recent != mine:
                         out["recency_mismatch"].append([rkey(rec), impl_recent])
-                    if not shadow_recent(shadow, rec, now):
+                    if not mine:
                         out["qu_not_recent"] = True
                         out["remulticast"] += [rkey(x) for x in [rec] + list(ans[rec])]   # D11: the record and its additionals
             elif ans:
@@ -533,6 +558,7 @@ def simulate(case, dupmask, skip_d11=False):
                 if twice:
                     obs["sigs"][i] = dict(sg, t=sim.now(), data=data.hex(), src=list(src))
             n_s, n_c = len(obs["sends"]), len(obs["callbacks"])
+            deferred_before = bool(lst._deferred.get(src[0]))   # truncated packets of this address waiting: the first copy is answered together with them
             was_processed = deliver_once(data, src)
             if twice:
                 gap = case.get("dup_gap", 0)
@@ -557,7 +583,7 @@ def simulate(case, dupmask, skip_d11=False):
                     after = downstream_digest(zc)
                     second = {"sends": obs["sends"][n_s2:], "callbacks": obs["callbacks"][n_c2:]}
                     obs["second_copies"].append({"key": i, "sig": known_sig(sg), "tc": sg["tc"], "qm": sg["qm_answers"], "remulticast": sorted(set(sg["remulticast"])),
-                                                 "src": list(src),
+                                                 "src": list(src), "first_alone": not deferred_before,
                                                  "first": first, "second": second,
                                                  "cache_same": before["cache"] == after["cache"], "queues_same": before["queues"] == after["queues"]})
 
@@ -893,7 +919,9 @@ def second_copy_findings(obs):
                         % (src[0], src[1], stray[0][1], stray[0][2]), where))
         # what a recorded finding predicts is *the first copy's multicast again*: no more datagrams than the first copy sent, to the mDNS group
         mc_first = [x for x in sc["first"]["sends"] if not is_unicast(x)]
-        if sc["sig"] and len(mc) > len(mc_first):
+        # (only when the first copy was answered alone: with truncated packets deferred for the address it is answered together with
+        # their questions and known answers, the second copy alone -- the two answers may then differ, rightly)
+        if sc["sig"] and sc.get("first_alone") and len(mc) > len(mc_first):
             bad.append(("C16:second-copy-multicast-datagram-count", "under %s the second copy was answered by %d multicast datagrams, the first by %d"
                         % (sc["sig"], len(mc), len(mc_first)), where))
         if [x for x in mc if x[2] != 5353]:
